@@ -16,7 +16,14 @@ Tie to the code, on every run:
      scipy's simpson (which is itself compared with scipy on random tables).
  (c) conditional_sample: samples inside the bounds [R].
 Property oracle: exact cell masses of the interpolant (Fractions) against the
-probabilities the implementation used.
+probabilities the implementation used; interpolant CDF at every sample against its u.
+
+Scale clause ("all ascending grids and non-negative tables", "any scales"): every part is
+repeated on tables / densities whose VALUES are tiny or huge -- un-normalised tables times
+2^-70 .. 2^70 and 1e-20 .. 1e20, correctly normalised pdfs over grids in units 2^-66 .. 2^66,
+log-densities with a constant offset (the posterior times a constant) and in coordinates of
+large / small units -- so that any absolute floor or ceiling in the code engages.  Theorems:
+coq/theories/Properties/C20Scale.v (Model/ConditionalScale.v).
 """
 from __future__ import annotations
 
@@ -30,6 +37,7 @@ import numpy as np
 from lib import common as C
 from lib import interval as I
 from lib.scripted import ScriptedRNG
+from concurrent.futures import ThreadPoolExecutor
 
 PROP = "C20"
 THEOREMS = ["C20_trapezium_inverse_cdf", "C20_trap_cdf_is_cdf", "C20_trap_cdf_injective",
@@ -39,8 +47,17 @@ THEOREMS = ["C20_trapezium_inverse_cdf", "C20_trap_cdf_is_cdf", "C20_trap_cdf_in
             "C20_sample_in_cell", "C20_normalised", "C20_grid_inside_bounds",
             "C20_search_points_in_bounds"]
 
+SCALE_THEOREMS = ["C20_delta_scale_invariant", "C20_sample_value_scale_invariant",
+                  "C20_sample_grid_scale_equivariant", "C20_sample_density_scale_invariant",
+                  "C20_wrong_slope_wrong_quantile", "C20_weights_value_scale_invariant",
+                  "C20_weights_grid_scale_invariant", "C20_deltas_value_scale_invariant",
+                  "C20_cell_point_grid_scale_equivariant", "C20_absolute_floor_invisible_above",
+                  "C20_absolute_floor_flattens_below", "C20_absolute_floor_refuted",
+                  "C20_search_offset_invariant", "C20_normalised_scale_invariant",
+                  "C20_unit_check_reduced_sound"]
+
 HEADER = """From Coq Require Import List QArith.
-From IT Require Import Model.Conditional.
+From IT Require Import Model.Conditional Model.ConditionalScale.
 Import ListNotations.
 Open Scope Q_scope.
 """
@@ -138,9 +155,64 @@ def masses_oracle(x, p, w):
     return None
 
 
-def pls_part(rep, tier):
-    r = C.rng_for(PROP, "pls")
-    n_cases = 160 if tier == "quick" else 1500
+def draws_oracle(x, p, ks, us, out, slack=Fraction(0)):
+    """The property on the implementation, per draw: the sample lies in its cell and the CDF of
+    the cell's linear density (the interpolant, whatever the absolute size of the table) at the
+    sample is the uniform number it was drawn for.  Exact in Fractions; the tolerance 1e-6 is far
+    above the 1e-10 of the near-zero branch (C20_near_zero_branch_error) and the rounding of the
+    sqrt branch (<= 1e-11 for |delta| >= 1e-5)."""
+    for k, u, o in zip(ks, us, out):
+        o = C.frac(o)
+        sl = slack * (abs(x[k]) + abs(x[k + 1]))
+        if not (x[k] - sl <= o <= x[k + 1] + sl):
+            return f"sample {float(o)!r} lies outside its cell [{float(x[k])!r}, {float(x[k + 1])!r}]"
+        tot = p[k + 1] + p[k]
+        if tot == 0:
+            continue
+        dlt = (p[k + 1] - p[k]) / tot
+        t = (o - x[k]) / (x[k + 1] - x[k])
+        cdf = (1 - dlt) * t + dlt * t * t
+        if abs(cdf - u) > Fraction(1, 10 ** 6):
+            return (f"sample {float(o)!r} in cell {k} (end densities {float(p[k])!r}, {float(p[k + 1])!r}) has "
+                    f"interpolant-CDF {float(cdf):.9g} but was drawn for u = {float(u):.9g}")
+    return None
+
+
+POW2 = [34, 40, 44, 50, 57, 60, 64, 67, 70]        # 2^34 ~ 1.7e10 ... 2^70 ~ 1.2e21
+
+
+def pick_pow(r):
+    return r.choice([-1, 1]) * r.choice(POW2)
+
+
+def rescale(r, x, p, mode):
+    """Tables whose values are tiny or huge / grids in other units; weights and slopes are
+    those of (x, p) itself (C20_weights_*_scale_invariant, C20_deltas_value_scale_invariant)."""
+    if mode == "values":            # un-normalised table times 2^k (exact)
+        k = pick_pow(r)
+        return x, [v * Fraction(2) ** k for v in p], {"value_pow2": k}
+    if mode == "decimal":           # un-normalised table times 1e-20 .. 1e20 (the nearest doubles)
+        k = r.choice([-1, 1]) * r.randint(12, 20)
+        return x, [C.frac(float(v * Fraction(10) ** k)) for v in p], {"value_pow10": k}
+    if mode == "units":             # correctly normalised pdf over a variable in large / small units
+        k = pick_pow(r)
+        xs = [v * Fraction(2) ** k for v in x]
+        mass = sum((p[i] + p[i + 1]) / 2 * (xs[i + 1] - xs[i]) for i in range(len(x) - 1))
+        return xs, [C.frac(float(v / mass)) for v in p], {"grid_pow2": k, "normalised": True}
+    kg, kv = pick_pow(r), pick_pow(r)   # both, independently
+    return ([v * Fraction(2) ** kg for v in x], [v * Fraction(2) ** kv for v in p],
+            {"grid_pow2": kg, "value_pow2": kv})
+
+
+def pls_part(rep, tier, scaled=False):
+    """scaled=False: the original order-one tables (stream "pls", unchanged);
+    scaled=True: the same generators, then `rescale` (stream "pls-scale")."""
+    r = C.rng_for(PROP, "pls-scale" if scaled else "pls")
+    if scaled:
+        n_cases = 70 if tier == "quick" else 400
+    else:
+        n_cases = 160 if tier == "quick" else 1500
+    tag = "pls-scale" if scaled else "pls"
     cases, metas, goals = [], [], []
     for ci in range(n_cases):
         n = r.randint(3, 9)
@@ -152,6 +224,16 @@ def pls_part(rep, tier):
         live = [i for i, mv in enumerate(means) if mv > 0]
         if not live:
             continue
+        note = {}
+        if scaled:
+            sm = r.choice(["values", "values", "decimal", "units", "units", "both"])
+            x, p, note = rescale(r, x, p, sm)
+            note["mode"] = sm
+            rep.count("pls-scale mode=" + sm)
+            lg = math.log10(float(max(p)))
+            rep.count("pls-scale log10(max table value) in " +
+                      ("[-45,-20)" if lg < -20 else "[-20,-9)" if lg < -9 else "[-9,9)" if lg < 9
+                       else "[9,20)" if lg < 20 else "[20,45)"))
         ns = r.randint(2, 6)
         ks = [r.choice(live) for _ in range(ns)]
         us = [Fraction(r.choice([0, 1, (1 << 16) - 1, r.randint(0, (1 << 16) - 1), r.randint(0, (1 << 16) - 1)]),
@@ -160,10 +242,12 @@ def pls_part(rep, tier):
         meta = {"x": [str(v) for v in x], "p": [str(v) for v in p], "ks": ks, "us": [str(u) for u in us],
                 "grid": gk, "table": tk, "out": out, "error": err,
                 "weights": None if w is None else [float(v) for v in w]}
+        if scaled:
+            meta["scale"] = note
         metas.append(meta)
-        rep.case(("pls", meta["x"], meta["p"], ks, meta["us"]))
-        rep.count("pls grid=" + gk)
-        rep.count("pls table=" + tk)
+        rep.case((tag, meta["x"], meta["p"], ks, meta["us"]))
+        rep.count(tag + " grid=" + gk)
+        rep.count(tag + " table=" + tk)
         if err is None and (w is None or len(out) != ns or not all(map(math.isfinite, out))):
             err = meta["error"] = f"non-finite samples / no probability vector: samples = {out}"
         if err is not None:
@@ -172,15 +256,20 @@ def pls_part(rep, tier):
         draws = []
         for j, (k, u, o) in enumerate(zip(ks, us, out)):
             d = (p[k + 1] - p[k]) / (p[k + 1] + p[k])
+            if scaled and abs(abs(d) - NZ_TOL) <= NZ_TOL * Fraction(1, 10 ** 9):
+                rep.count(tag + " draw dropped (|delta| at the 1e-5 switch)")
+                continue
             branch = "near_zero" if abs(d) < NZ_TOL else "full"
-            rep.count("pls branch=" + branch)
+            rep.count(tag + " branch=" + branch)
             draws.append(f"({C.cnat(k)}, {C.cq(u)}, {C.cq(o)})")
-            if branch == "full":
+            if branch == "full" and not (scaled and sum(1 for g in goals if g[0].startswith(f"s{len(metas) - 1}_"))
+                                         >= (1 if tier == "quick" else 2)):
+                # (one / two interval goals per rescaled case; draws_oracle still judges every draw)
                 dx = x[k + 1] - x[k]
                 tol = Fraction(1, 10 ** 9) * dx + Fraction(1, 10 ** 12) * abs(x[k])
                 stmt = (f"Rabs (pls_sample_full {C.cR(x[k])} {C.cR(x[k + 1])} {C.cR(p[k])} {C.cR(p[k + 1])} "
                         f"{C.cR(u)} - {C.cR(o)}) <= {C.cR(tol)}")
-                goals.append((f"{len(metas) - 1}_{j}", stmt,
+                goals.append((f"{'s' if scaled else ''}{len(metas) - 1}_{j}", stmt,
                               "unfold pls_sample_full, cell_sample, cell_delta, trapezium_full. "
                               "interval with (i_prec 120)"))
         cases.append(f"({ql(x)}, {ql(p)}, {C.cq(RTOL)}, {ql(w)}, {C.cq(NZ_TOL)}, {C.clist(draws)})")
@@ -219,10 +308,24 @@ def gen_func(r):
     return kind, (lambda x: max(-a * (x - m) * (x - m), -a * (x - m2) * (x - m2) - c)), m
 
 
-def eval_part(rep, tier):
+OFFSETS_SMALL = [46, 64, 700, 1024]                    # log(1e20) ~ 46; exp(700) ~ 1e304
+OFFSETS_LARGE = [46, 64, 700, 1024, 1 << 14, 1 << 20, 10 ** 6]
+UNIT_POW2 = [20, 30, 40, 50, 60, 66]
+
+
+def eval_part(rep, tier, scaled=False):
+    """scaled=True: the log-density is func(x / 2^k) + c -- the coordinate in units of 2^-k
+    (so the returned, correctly normalised density has values of order 2^-k) and the posterior
+    multiplied by exp(c); grid and evaluation sequence are those of the model on the recorded
+    values (C20_search_offset_invariant: the offset changes nothing but the mode value)."""
     m = mod()
-    r = C.rng_for(PROP, "eval")
-    n_cases = 60 if tier == "quick" else 500
+    r = C.rng_for(PROP, "eval-scale" if scaled else "eval")
+    if scaled:
+        n_cases = 36 if tier == "quick" else 150
+    else:
+        n_cases = 60 if tier == "quick" else 500
+    tag = "eval-scale" if scaled else "eval"
+    pre = "s" if scaled else ""
     cases, metas, goals, ucases = [], [], [], []
     for ci in range(n_cases):
         kind, fn, mode = gen_func(r)
@@ -233,6 +336,18 @@ def eval_part(rep, tier):
         if r.random() < 0.5 and pts[0] < mode < pts[-1] and mode not in pts:
             pts = sorted(pts + [mode])
         gs = r.choice([5, 9, 17, 33, 65, 6, 10, 16, 32, 64])      # odd and even (the library default, 64, is even)
+        note = None
+        if scaled:
+            sm = r.choice(["offset", "units", "both"])
+            kx = r.choice([-1, 1]) * r.choice(UNIT_POW2) if sm != "offset" else 0
+            off = (r.choice([-1, 1]) * r.choice(OFFSETS_LARGE if kind in ("tent", "flat_top") else OFFSETS_SMALL)
+                   if sm != "units" else 0)
+            S, cq_ = Fraction(2) ** kx, Fraction(off)
+            fn = (lambda x, _f=fn, _S=S, _c=cq_: _f(x / _S) + _c)
+            pts = [v * S for v in pts]
+            note = {"mode": sm, "coordinate_pow2": kx, "log_density_offset": off}
+            rep.count("eval-scale mode=" + sm)
+            rep.count(f"eval-scale offset={'0' if off == 0 else ('+' if off > 0 else '-') + ('<=1024' if abs(off) <= 1024 else '>1024')}")
         rec = Rec1D(fn)
         try:
             with warnings.catch_warnings():
@@ -246,23 +361,34 @@ def eval_part(rep, tier):
                 "table": [[str(a), str(b)] for a, b in rec.log],
                 "grid": None if xg is None else [float(v) for v in xg],
                 "dens": None if pg is None else [float(v) for v in pg]}
+        if scaled:
+            meta["scale"] = note
         metas.append(meta)
-        rep.case(("eval", kind, meta["points"], gs))
-        rep.count("eval func=" + kind)
-        rep.count(f"eval grid_size={gs}")
+        rep.case((tag, kind, meta["points"], gs, note))
+        rep.count(tag + " func=" + kind)
+        rep.count(f"{tag} grid_size={gs}")
         if err is None and not (np.all(np.isfinite(pg)) and np.all(np.isfinite(xg))):
             err = meta["error"] = "non-finite grid or density returned"
+        if err is None and scaled:
+            rep.count("eval-scale log10(peak density) in " +
+                      (lambda lg: "[-25,-9)" if lg < -9 else "[-9,-3)" if lg < -3 else "[-3,3)" if lg < 3
+                       else "[3,9)" if lg < 9 else "[9,25)")(math.log10(max(float(v) for v in pg))))
+        if err is None and scaled and rec.inexact:
+            # the recorded values are not exact doubles, so the evaluation sequence is not compared; the
+            # returned table must still integrate to one (scale-free, no exactness needed)
+            ucases.append((len(metas) - 1, f"({C.cq(Fraction(1, 10 ** 10))}, {ql([C.frac(v) for v in xg])}, "
+                           f"{ql([C.frac(v) for v in pg])})"))
         if err is not None or rec.inexact:
             cases.append(None if err is not None else "skip")
             if rec.inexact:
-                rep.count("eval dropped (values not exact doubles)")
+                rep.count(tag + " dropped (values not exact doubles)")
             continue
         tbl = C.clist([f"({C.cq(a)}, {C.cq(b)})" for a, b in rec.log])
         if gs % 2 == 0:
             # an even linspace is not exact in double precision: the grid / evaluation sequence is only
             # compared for the odd sizes; the normalisation of the returned table (below) for all
             cases.append("skip")
-            rep.count("eval grid comparison skipped (even grid_size, inexact linspace)")
+            rep.count(tag + " grid comparison skipped (even grid_size, inexact linspace)")
         else:
             cases.append(f"({C.cq(BS_TOL)}, {ql(pts)}, {C.cnat(gs)}, {tbl}, {ql([C.frac(v) for v in xg])})")
         ucases.append((len(metas) - 1, f"({C.cq(Fraction(1, 10 ** 10))}, {ql([C.frac(v) for v in xg])}, "
@@ -276,17 +402,23 @@ def eval_part(rep, tier):
             oj, oi = C.frac(pg[jm]), C.frac(pg[i])
             stmt = (f"Rabs (exp ({C.cR(vals[i])} - {C.cR(vals[jm])}) * {C.cR(oj)} - {C.cR(oi)}) "
                     f"<= {C.cR(Fraction(1, 10 ** 10) * oj)}")
-            goals.append((f"e{len(metas) - 1}_{i}", stmt, "interval with (i_prec 100)"))
+            goals.append((f"e{pre}{len(metas) - 1}_{i}", stmt, "interval with (i_prec 100)"))
     return cases, metas, goals, ucases
 
 
-def cond_part(rep, tier):
+def cond_part(rep, tier, scaled=False):
     """get_conditionals on dyadic multi-variable log-densities (bounds width 15 * 2^k so the
-    16 search points are exact), grid_size 2^k + 1."""
+    16 search points are exact), grid_size 2^k + 1.
+    scaled=True: variable i is measured in units of 2^-k_i (bounds, conditioning point and the
+    posterior's argument scaled together) and the log-posterior carries a constant offset."""
     m = mod()
-    r = C.rng_for(PROP, "cond")
-    n_cases = 12 if tier == "quick" else 80
-    cases, metas, rbad = [], [], []
+    r = C.rng_for(PROP, "cond-scale" if scaled else "cond")
+    if scaled:
+        n_cases = 8 if tier == "quick" else 30
+    else:
+        n_cases = 12 if tier == "quick" else 80
+    tag = "cond-scale" if scaled else "cond"
+    cases, metas, rbad, cucases = [], [], [], []
     for ci in range(n_cases):
         d = r.randint(1, 3)
         a = [Fraction(r.choice([1, 2, 4, 8]), r.choice([1, 2, 4])) for _ in range(d)]
@@ -308,15 +440,26 @@ def cond_part(rep, tier):
             else:
                 c = lo + w * Fraction(r.randint(1, 63), 64)
             cpt.append(c)
+        S = [Fraction(1)] * d
+        off = Fraction(0)
+        if scaled:
+            S = [Fraction(2) ** (r.choice([-1, 1]) * r.choice(UNIT_POW2)) if r.random() < 0.8 else Fraction(1)
+                 for _ in range(d)]
+            off = Fraction(r.choice([0, -1, 1]) * r.choice(OFFSETS_SMALL))
+            if all(v == 1 for v in S) and off == 0:
+                off = Fraction(-46)
+            bounds = [(lo * S[i], hi * S[i]) for i, (lo, hi) in enumerate(bounds)]
+            cpt = [c * S[i] for i, c in enumerate(cpt)]
         log = []
         inexact = [0]
         active = [None]       # variable being scanned, observed through Conditional.__call__
 
-        def post(theta, _log=log):
+        def post(theta, _log=log, _S=S, _off=off):
             th = [C.frac(float(t)) for t in theta]
-            v = sum(-a[i] * (th[i] - mu[i]) ** 2 for i in range(d))
+            un = [th[i] / _S[i] for i in range(d)]
+            v = sum(-a[i] * (un[i] - mu[i]) ** 2 for i in range(d)) + _off
             for (i, j), cij in cc.items():
-                v -= cij * th[i] * th[j]
+                v -= cij * un[i] * un[j]
             f = float(v)
             if Fraction(f) != v:
                 inexact[0] += 1
@@ -345,16 +488,24 @@ def cond_part(rep, tier):
                 "corr": {f"{i},{j}": str(v) for (i, j), v in cc.items()},
                 "bounds": [[str(lo), str(hi)] for lo, hi in bounds], "cpt": [str(c) for c in cpt],
                 "grid_size": gs, "error": err}
+        if scaled:
+            meta["scale"] = {"unit_of_variable": [str(v) for v in S], "log_posterior_offset": str(off)}
+            rep.count("cond-scale offset " + ("0" if off == 0 else "+" if off > 0 else "-"))
+            for v in S:
+                rep.count("cond-scale unit " + ("1" if v == 1 else "large" if v > 1 else "small"))
         metas.append(meta)
-        rep.case(("cond", meta["a"], meta["mu"], meta["bounds"], meta["cpt"], gs))
-        rep.count(f"cond d={d}")
+        rep.case((tag, meta["a"], meta["mu"], meta["bounds"], meta["cpt"], gs, meta.get("scale")))
+        rep.count(f"{tag} d={d}")
         if err is None and not (np.all(np.isfinite(axes)) and np.all(np.isfinite(prob))):
             err = meta["error"] = "non-finite axes or densities returned"
         if err is not None:
             cases.append([None])
             continue
+        for i in range(d):      # every returned conditional integrates to one (needs no exactness)
+            cucases.append((len(metas) - 1, f"({C.cq(Fraction(1, 10 ** 10))}, {ql([C.frac(v) for v in axes[:, i]])}, "
+                            f"{ql([C.frac(v) for v in prob[:, i]])})"))
         if inexact[0]:
-            rep.count("cond dropped (values not exact doubles)")
+            rep.count(tag + " dropped (values not exact doubles)")
             cases.append([])
             continue
         # split the evaluation log per variable: variable i's calls differ from cpt only in coord i
@@ -388,7 +539,7 @@ def cond_part(rep, tier):
             sub.append(f"({C.cq(BS_TOL)}, {C.cq(lo)}, {C.cq(hi)}, {C.cq(cpt[i])}, 16%nat, {C.cnat(gs)}, "
                        f"{tbl}, {ql([C.frac(v) for v in axes[:, i]])})")
         cases.append(sub)
-    return cases, metas, rbad
+    return cases, metas, rbad, cucases
 
 
 def simpson_part(rep, tier):
@@ -408,12 +559,20 @@ def simpson_part(rep, tier):
     return out
 
 
-def sample_part(rep, tier):
-    """conditional_sample stays inside the bounds [R] (default grid_size = 64)."""
+def sample_part(rep, tier, scaled=False):
+    """conditional_sample stays inside the bounds [R] (default grid_size = 64); every call of
+    piecewise_linear_sample it makes is recorded (table, cells, uniforms, samples) and judged by
+    the two oracles; a few draws per variable become interval goals on pls_sample_full.
+    scaled=True: parameters measured in units of 1e-19 .. 1e19 (so the conditionals, correctly
+    normalised, have values of 1e19 .. 1e-19) and a constant offset of the log-posterior."""
     m = mod()
-    r = C.rng_for(PROP, "sample")
-    bad = []
-    n = 6 if tier == "quick" else 40
+    r = C.rng_for(PROP, "sample-scale" if scaled else "sample")
+    bad, goals = [], []
+    if scaled:
+        n = 8 if tier == "quick" else 20
+    else:
+        n = 6 if tier == "quick" else 40
+    tag = "sample-scale" if scaled else "sample"
     for ci in range(n):
         d = r.randint(1, 3)
         mu = [r.uniform(-2, 2) for _ in range(d)]
@@ -423,13 +582,33 @@ def sample_part(rep, tier):
             lo = mu[i] - r.choice([0.2, 1.0, 6.0]) * sg[i]
             hi = mu[i] + r.choice([0.2, 1.0, 6.0]) * sg[i]
             bounds.append((lo, hi))
+        off = 0.0
+        unit = [1.0] * d
+        if scaled:
+            unit = [10.0 ** (r.choice([-1, 1]) * r.randint(6, 19)) for _ in range(d)]
+            off = float(r.choice([0, -1, 1]) * r.choice([46, 700, 12345]))
+            mu = [mu[i] * unit[i] for i in range(d)]
+            sg = [sg[i] * unit[i] for i in range(d)]
+            bounds = [(lo * unit[i], hi * unit[i]) for i, (lo, hi) in enumerate(bounds)]
+            for u_ in unit:
+                rep.count("sample-scale unit " + ("large (1e6..1e19)" if u_ > 1 else "small (1e-19..1e-6)"))
         cpt = np.array([min(max(mu[i], bounds[i][0]), bounds[i][1]) for i in range(d)])
 
-        def post(theta):
-            return float(-0.5 * sum(((theta[i] - mu[i]) / sg[i]) ** 2 for i in range(d)))
-        rng = ScriptedRNG(C.seed() * 1000 + ci)
-        saved = m.rng
+        def post(theta, _mu=mu, _sg=sg, _off=off):
+            return float(-0.5 * sum(((theta[i] - _mu[i]) / _sg[i]) ** 2 for i in range(d))) + _off
+        sd = C.seed() * 1000 + ci + (500 if scaled else 0)
+        rng = ScriptedRNG(sd)
+        saved, saved_pls = m.rng, m.piecewise_linear_sample
+        calls = []
+
+        def rec_pls(x, p, nsmp, _o=saved_pls, _rng=rng, _calls=calls):
+            i0 = len(_rng.log)
+            out = _o(x, p, nsmp)
+            _calls.append((np.array(x, dtype=float), np.array(p, dtype=float), np.array(out, dtype=float),
+                           _rng.log[i0:]))
+            return out
         m.rng = rng
+        m.piecewise_linear_sample = rec_pls
         try:
             with warnings.catch_warnings():
                 warnings.simplefilter("ignore")
@@ -439,9 +618,11 @@ def sample_part(rep, tier):
             s, err = None, repr(e)
         finally:
             m.rng = saved
-        meta = {"mu": mu, "sigma": sg, "bounds": bounds, "cpt": cpt.tolist(), "seed": C.seed() * 1000 + ci}
-        rep.case(("sample", mu, sg, bounds))
-        rep.count(f"sample d={d}")
+            m.piecewise_linear_sample = saved_pls
+        meta = {"mu": mu, "sigma": sg, "bounds": bounds, "cpt": cpt.tolist(), "seed": sd,
+                "log_posterior_offset": off}
+        rep.case((tag, mu, sg, bounds, off))
+        rep.count(f"{tag} d={d}")
         if err is not None:
             bad.append((meta, f"conditional_sample failed: {err}"))
             continue
@@ -456,178 +637,303 @@ def sample_part(rep, tier):
                 tot = sum(v["p"])
                 if abs(tot - 1) > Fraction(1, 10 ** 9) or min(v["p"]) < 0:
                     bad.append((meta, "cell probabilities do not form a distribution"))
-    return bad
+        # the recorded piecewise_linear_sample calls: masses and within-cell distribution
+        for vi, (xa, pa, oa, lg) in enumerate(calls):
+            if not (np.all(np.isfinite(xa)) and np.all(np.isfinite(pa)) and np.all(np.isfinite(oa))):
+                continue
+            xq, pq = [C.frac(v) for v in xa], [C.frac(v) for v in pa]
+            w = next((v["p"] for kd, v in lg if kd == "choice_call"), None)
+            ks = [v for kd, v in lg if kd == "choice"]
+            us = [v for kd, v in lg if kd == "uniform"]
+            rep.count(tag + " log10(peak of the sampled table) in " +
+                      (lambda q: "[-25,-9)" if q < -9 else "[-9,-3)" if q < -3 else "[-3,3)" if q < 3
+                       else "[3,9)" if q < 9 else "[9,25)")(math.log10(max(float(pa.max()), 1e-300))))
+            sub = {"variable": vi, "x": [float(v) for v in xa], "p": [float(v) for v in pa],
+                   "ks": ks, "us": [str(u) for u in us], "out": [float(v) for v in oa]}
+            if len(ks) != len(oa) or len(us) != len(oa):
+                bad.append((dict(meta, pls_call=sub), "piecewise_linear_sample did not draw one cell and one "
+                            "uniform number per sample"))
+                continue
+            why = masses_oracle(xq, pq, w) or draws_oracle(xq, pq, ks, us, [float(v) for v in oa],
+                                                          slack=Fraction(1, 10 ** 12))
+            if why:
+                bad.append((dict(meta, pls_call=sub), f"conditional_sample, variable {vi}: " + why))
+                continue
+            # tie to RealModel.Trapezium: one draw of the sqrt branch per case (quick) / per variable
+            if tier == "quick" and vi != ci % d:
+                continue
+            picked = 0
+            for j, (k, u, o) in enumerate(zip(ks, us, oa)):
+                tot = pq[k + 1] + pq[k]
+                if picked >= 1 or tot == 0:
+                    break
+                dl = (pq[k + 1] - pq[k]) / tot
+                if abs(dl) < 2 * NZ_TOL:
+                    continue
+                dx = xq[k + 1] - xq[k]
+                tol = Fraction(1, 10 ** 9) * dx + Fraction(1, 10 ** 12) * abs(xq[k])
+                stmt = (f"Rabs (pls_sample_full {C.cR(xq[k])} {C.cR(xq[k + 1])} {C.cR(pq[k])} {C.cR(pq[k + 1])} "
+                        f"{C.cR(u)} - {C.cR(C.frac(float(o)))}) <= {C.cR(tol)}")
+                goals.append((f"c{'s' if scaled else ''}{ci}_{vi}_{j}", stmt,
+                              "unfold pls_sample_full, cell_sample, cell_delta, trapezium_full. "
+                              "interval with (i_prec 120)"))
+                picked += 1
+    return bad, goals
 
 
 # ============================================================ driver
-def run_files(rep, name, typ, chk, items, key, what, metas_of, ch=40):
-    """items: list of (meta index, coq text).  Returns set of failing meta indices."""
+def run_files(name, typ, chk, items, ch=40):
+    """items: list of (meta index, coq text).  Pure (no Report calls: it runs in a worker thread).
+    Returns (failing meta indices, number of files evaluated, [(file name, log)] of files that did not)."""
     files, index = [], []
     for i in range(0, len(items), ch):
         chunk = items[i:i + ch]
         body = f"Definition cases : list {typ} :=\n " + C.clist([t for _, t in chunk], ";\n ") + "."
         files.append(C.write_case_file(PROP, f"{name}_{i // ch}", HEADER, body, [f"failing {chk} cases 0"]))
         index.append([k for k, _ in chunk])
-    failing = []
+    failing, n_ok, brk = [], 0, []
     for p, idx, (ok, res, log) in zip(files, index, C.run_case_files(files, jobs=8)):
         if not ok or 0 not in res:
-            rep.obligation(False)
-            rep.violation(key + "-run", f"case file {p.name} did not evaluate",
-                          {"theorem_or_correspondence": p.name, "log": log}, False)
+            brk.append((p.name, log))
             continue
-        rep.obligation(True)
+        n_ok += 1
         failing += [idx[j] for j in res[0]]
-    return failing
+    return failing, n_ok, brk
 
 
 def run(rep: C.Report, tier: str) -> int:
+    import time
+    t_start = time.time()
     C.clean_gen(PROP)
-    C.prove_and_audit(rep, PROP, THEOREMS)
+    C.prove_and_audit(rep, PROP, THEOREMS)      # (builds first unless VERIF_SKIP_BUILD)
+    apool = ThreadPoolExecutor(max_workers=1)
+    f_audit = apool.submit(C.coq_audit, PROP + "_scale", SCALE_THEOREMS, "IT.Properties.C20Scale")
+    t_audit = time.time()
 
-    # ---- (a)
+
+    # ---- run the implementation on all inputs first (Python), then all Coq work concurrently
+    # (a) order-one tables, then the same generators on tiny / huge tables and grids in other units
     pcases, pmetas, pgoals = pls_part(rep, tier)
-    items = [(i, c) for i, c in enumerate(pcases) if c is not None]
-    pfail = set(run_files(rep, "pls", "pls_case", "check_pls_case", items, "C20/pls", "", pmetas))
-    pfail |= {i for i, c in enumerate(pcases) if c is None}
-    # ---- (b)
+    pcases2, pmetas2, pgoals2 = pls_part(rep, tier, scaled=True)
+    # (b)
     ecases, emetas, egoals, ucases = eval_part(rep, tier)
-    items = [(i, c) for i, c in enumerate(ecases) if c not in (None, "skip")]
-    efail = set(run_files(rep, "eval", "eval_case", "check_eval_case", items, "C20/eval", "", emetas, ch=15))
-    efail |= {i for i, c in enumerate(ecases) if c is None}
-    ufail = set(run_files(rep, "unit", "unit_case", "check_unit_case", ucases, "C20/unit", "", emetas, ch=30))
-    ccases, cmetas, crbad = cond_part(rep, tier)
-    items = [(i, t) for i, sub in enumerate(ccases) for t in sub if t is not None]
-    cfail = set(run_files(rep, "cond", "cond_case", "check_cond_case", items, "C20/cond", "", cmetas, ch=8))
-    cfail |= {i for i, sub in enumerate(ccases) if sub == [None]}
+    ecases2, emetas2, egoals2, ucases2 = eval_part(rep, tier, scaled=True)
+    ccases, cmetas, crbad, cucases = cond_part(rep, tier)
+    ccases2, cmetas2, crbad2, cucases2 = cond_part(rep, tier, scaled=True)
     scases = simpson_part(rep, tier)
-    sfail = run_files(rep, "simpson", "simpson_case", "check_simpson_case",
-                      list(enumerate(scases)), "C20/simpson", "", None, ch=40)
-    # ---- interval goals
-    failed, broken = I.check_goals(PROP, "goals", pgoals + egoals, preamble=PREAMBLE, chunk=60, jobs=8,
-                                   timeout=600)
-    ng = len(pgoals) + len(egoals)
+    # (c)
+    sbad, sgoals = sample_part(rep, tier)
+    sbad2, sgoals2 = sample_part(rep, tier, scaled=True)
+    t_impl = time.time()
+
+    pool = ThreadPoolExecutor(max_workers=12)
+
+    keys = {}
+
+    def files(name, typ, chk, items, key, ch):
+        f = pool.submit(run_files, name, typ, chk, items, ch)
+        keys[f] = key
+        return f
+
+    def done(f):
+        failing, n_ok, brk = f.result()
+        rep.obligation(True, n_ok)
+        for fname, log in brk:
+            rep.obligation(False)
+            rep.violation(keys[f] + "-run", f"case file {fname} did not evaluate",
+                          {"theorem_or_correspondence": fname, "log": log}, False)
+        return failing
+
+    def live(cs):
+        return [(i, c) for i, c in enumerate(cs) if c not in (None, "skip")]
+
+    def flat(cs):
+        return [(i, t) for i, sub in enumerate(cs) for t in sub if t is not None]
+    f_p = files("pls", "pls_case", "check_pls_case", live(pcases), "C20/pls", 40)
+    f_p2 = files("plsscale", "pls_case", "check_pls_case", live(pcases2), "C20/pls", 30)
+    f_e = files("eval", "eval_case", "check_eval_case", live(ecases), "C20/eval", 15)
+    f_e2 = files("evalscale", "eval_case", "check_eval_case", live(ecases2), "C20/eval", 10)
+    # check_unit_case_red = check_unit_case (C20_unit_check_reduced_sound), evaluated with reduced fractions
+    f_u = files("unit", "unit_case", "check_unit_case_red", ucases, "C20/unit", 12)
+    f_u2 = files("unitscale", "unit_case", "check_unit_case_red", ucases2, "C20/unit", 10)
+    f_c = files("cond", "cond_case", "check_cond_case", flat(ccases), "C20/cond", 8)
+    f_c2 = files("condscale", "cond_case", "check_cond_case", flat(ccases2), "C20/cond", 6)
+    f_cu = files("condunit", "unit_case", "check_unit_case_red", cucases + [(-1 - i, t) for i, t in cucases2],
+                 "C20/unit", 12)
+    f_s = files("simpson", "simpson_case", "check_simpson_case", list(enumerate(scases)), "C20/simpson", 40)
+    all_goals = pgoals + pgoals2 + egoals + egoals2 + sgoals + sgoals2
+    f_g = pool.submit(I.check_goals, PROP, "goals", all_goals, preamble=PREAMBLE, chunk=60, jobs=10, timeout=600)
+
+    pfail = set(done(f_p)) | {i for i, c in enumerate(pcases) if c is None}
+    pfail2 = set(done(f_p2)) | {i for i, c in enumerate(pcases2) if c is None}
+    efail = set(done(f_e)) | {i for i, c in enumerate(ecases) if c is None}
+    efail2 = set(done(f_e2)) | {i for i, c in enumerate(ecases2) if c is None}
+    ufail, ufail2 = set(done(f_u)), set(done(f_u2))
+    cfail = set(done(f_c)) | {i for i, sub in enumerate(ccases) if sub == [None]}
+    cfail2 = set(done(f_c2)) | {i for i, sub in enumerate(ccases2) if sub == [None]}
+    cufail_all = set(done(f_cu))
+    cufail = {i for i in cufail_all if i >= 0}
+    cufail2 = {-1 - i for i in cufail_all if i < 0}
+    sfail = done(f_s)
+    failed, broken = f_g.result()
+    pool.shutdown()
+    try:      # the scale clause: Properties/C20Scale.v (audited while the cases ran)
+        info = f_audit.result()
+        rep.obligation(True, len(SCALE_THEOREMS))
+        rep.coverage["scale_audit"] = info
+    except C.ProofFailure as e:
+        rep.obligation(False, len(SCALE_THEOREMS))
+        rep.violation("C20/proof", f"proof obligation no longer checks: {e.what}",
+                      {"theorem_or_correspondence": e.what, "log": e.log[-1500:]}, False)
+    apool.shutdown()
+    t_coq = time.time()
+    rep.coverage["phase_s"] = {"audit": round(t_audit - t_start, 1), "implementation": round(t_impl - t_audit, 1),
+                               "coq_cases_and_goals": round(t_coq - t_impl, 1)}
+    ng = len(all_goals)
     rep.obligation(True, ng - len(failed))
     rep.obligation(False, len(failed))
     rep.coverage["interval_goals"] = ng
-    rep.coverage["traces_validated_against_impl"] = (len([c for c in pcases if c]) +
-                                                     len([c for c in ecases if c not in (None, "skip")]) +
-                                                     sum(len(s) for s in ccases))
+    rep.coverage["traces_validated_against_impl"] = (len(live(pcases)) + len(live(pcases2)) + len(live(ecases)) +
+                                                     len(live(ecases2)) + sum(len(s) for s in ccases) +
+                                                     sum(len(s) for s in ccases2))
     for b in broken:
         rep.obligation(False)
         rep.violation("C20/goal-file", "a file of interval goals could not be processed",
                       {"theorem_or_correspondence": "coq/gen/C20/goals_*.v", "log": b}, False)
-    gfail_p, gfail_e = {}, set()
+    gfail_p, gfail_p2, gfail_e, gfail_e2, gfail_c = {}, {}, set(), set(), []
     for gid, log in failed:
-        if gid.startswith("e"):
+        if gid.startswith("es"):
+            gfail_e2.add(int(gid[2:].split("_")[0]))
+        elif gid.startswith("e"):
             gfail_e.add(int(gid[1:].split("_")[0]))
+        elif gid.startswith("c"):
+            gfail_c.append(gid)
+        elif gid.startswith("s"):
+            gfail_p2.setdefault(int(gid[1:].split("_")[0]), []).append(int(gid.split("_")[1]))
         else:
             gfail_p.setdefault(int(gid.split("_")[0]), []).append(int(gid.split("_")[1]))
 
     # ---- classify: piecewise_linear_sample
-    shown = 0
-    for i in sorted(pfail | set(gfail_p)):
-        if shown >= 3:
-            break
-        mt = pmetas[i]
-        x = [Fraction(v) for v in mt["x"]]
-        p = [Fraction(v) for v in mt["p"]]
-        if mt["error"] is not None:
-            rep.violation("C20/pls-exception", f"piecewise_linear_sample failed on a valid table: {mt['error']}",
-                          {"case": {"kind": "pls", "meta": mt}}, True)
+    def classify_pls(pfail_, gfail_, metas_):
+        shown = 0
+        for i in sorted(pfail_ | set(gfail_)):
+            if shown >= 3:
+                break
+            mt = metas_[i]
+            x = [Fraction(v) for v in mt["x"]]
+            p = [Fraction(v) for v in mt["p"]]
+            if mt["error"] is not None:
+                rep.violation("C20/pls-exception", f"piecewise_linear_sample failed on a valid table: {mt['error']}",
+                              {"case": {"kind": "pls", "meta": mt}}, True)
+                shown += 1
+                continue
+            w = [C.frac(v) for v in mt["weights"]] if mt["weights"] else None
+            why = masses_oracle(x, p, w)
+            outside = [o for o, k in zip(mt["out"], mt["ks"]) if not (float(x[k]) <= o <= float(x[k + 1]))]
+            if why is None and outside:
+                why = f"sample {outside[0]} lies outside its cell"
+            if why is None:
+                # the quantile property itself: the CDF of the cell's linear density at the sample must be u
+                why = draws_oracle(x, p, mt["ks"], [Fraction(u) for u in mt["us"]], mt["out"])
+            if why:
+                rep.violation("C20/piecewise_linear_sample", why, {"case": {"kind": "pls", "meta": mt}}, True)
+            else:
+                rep.violation("C20/pls-correspondence",
+                              "piecewise_linear_sample and Model.Conditional disagree, but the property was not "
+                              "seen to fail on this input",
+                              {"theorem_or_correspondence": "Model.Conditional.check_pls_case / pls_sample_full",
+                               "case": {"kind": "pls", "meta": mt}}, False)
             shown += 1
-            continue
-        w = [C.frac(v) for v in mt["weights"]] if mt["weights"] else None
-        why = masses_oracle(x, p, w)
-        outside = [o for o, k in zip(mt["out"], mt["ks"]) if not (float(x[k]) <= o <= float(x[k + 1]))]
-        if why is None and outside:
-            why = f"sample {outside[0]} lies outside its cell"
-        if why is None and i in gfail_p:
-            # the quantile property itself: the CDF of the cell's linear density at the sample must be u
-            for j in gfail_p[i]:
-                k, u, o = mt["ks"][j], Fraction(mt["us"][j]), C.frac(mt["out"][j])
-                dlt = (p[k + 1] - p[k]) / (p[k + 1] + p[k])
-                t = (o - x[k]) / (x[k + 1] - x[k])
-                cdf = (1 - dlt) * t + dlt * t * t
-                if abs(cdf - u) > Fraction(1, 10 ** 6):
-                    why = (f"sample {float(o)!r} in cell {k} has interpolant-CDF {float(cdf):.9g} "
-                           f"but was drawn for u = {float(u):.9g}")
-                    break
-        if why:
-            rep.violation("C20/piecewise_linear_sample", why, {"case": {"kind": "pls", "meta": mt}}, True)
-        else:
-            rep.violation("C20/pls-correspondence",
-                          "piecewise_linear_sample and Model.Conditional disagree, but the property was not "
-                          "seen to fail on this input",
-                          {"theorem_or_correspondence": "Model.Conditional.check_pls_case / pls_sample_full",
-                           "case": {"kind": "pls", "meta": mt}}, False)
-        shown += 1
-    # second opinion on every case [oracle]
-    if not pfail:
-        for i, mt in enumerate(pmetas):
-            if mt["error"] is None and mt["weights"]:
-                why = masses_oracle([Fraction(v) for v in mt["x"]], [Fraction(v) for v in mt["p"]],
-                                    [C.frac(v) for v in mt["weights"]])
-                if why:
-                    rep.violation("C20/piecewise_linear_sample", why, {"case": {"kind": "pls", "meta": mt}}, True)
-                    break
+        # second opinion on every case [oracle]: masses and the CDF of every draw
+        if not (pfail_ | set(gfail_)):
+            for i, mt in enumerate(metas_):
+                if mt["error"] is None and mt["weights"]:
+                    x, p = [Fraction(v) for v in mt["x"]], [Fraction(v) for v in mt["p"]]
+                    why = (masses_oracle(x, p, [C.frac(v) for v in mt["weights"]]) or
+                           draws_oracle(x, p, mt["ks"], [Fraction(u) for u in mt["us"]], mt["out"]))
+                    if why:
+                        rep.violation("C20/piecewise_linear_sample", why, {"case": {"kind": "pls", "meta": mt}}, True)
+                        break
+    classify_pls(pfail, gfail_p, pmetas)
+    classify_pls(pfail2, gfail_p2, pmetas2)
 
     # ---- classify: evaluate_conditional
-    for i in sorted(efail | ufail | gfail_e)[:3]:
-        mt = emetas[i]
-        why = None
-        if mt["error"] is not None:
-            why = f"evaluate_conditional failed: {mt['error']}"
-        else:
-            pts = [Fraction(v) for v in mt["points"]]
-            g = mt["grid"]
-            if not all(float(pts[0]) <= v <= float(pts[-1]) for v in g):
-                why = "grid leaves the range of the search points"
+    def classify_eval(fail_, metas_):
+        for i in sorted(fail_)[:3]:
+            mt = metas_[i]
+            why = None
+            if mt["error"] is not None:
+                why = f"evaluate_conditional failed: {mt['error']}"
             else:
-                from scipy.integrate import simpson
-                tot = float(simpson(np.array(mt["dens"]), x=np.array(g)))
-                if abs(tot - 1) > 1e-9:
-                    why = f"returned conditional integrates to {tot!r}, not 1"
+                pts = [Fraction(v) for v in mt["points"]]
+                g = mt["grid"]
+                if not all(float(pts[0]) <= v <= float(pts[-1]) for v in g):
+                    why = "grid leaves the range of the search points"
                 else:
-                    tb = {Fraction(a): Fraction(b) for a, b in mt["table"]}
-                    vals = [float(tb[C.frac(v)]) if C.frac(v) in tb else None for v in g]
-                    if None not in vals:
-                        jm = int(np.argmax(vals))
-                        for k_, (v, dn) in enumerate(zip(vals, mt["dens"])):
-                            want = math.exp(v - vals[jm]) * mt["dens"][jm]
-                            if abs(dn - want) > 1e-8 * mt["dens"][jm]:
-                                why = (f"density at grid point {k_} is {dn!r} but exp(func) scaled to the "
-                                       f"peak gives {want!r}")
-                                break
-        if why:
-            rep.violation("C20/evaluate_conditional", why, {"case": {"kind": "eval", "meta": mt}}, True)
-        else:
-            rep.violation("C20/eval-correspondence",
-                          "evaluate_conditional and Model.Conditional.evaluate_search disagree (evaluation "
-                          "sequence or grid), but the property was not seen to fail on this input",
-                          {"theorem_or_correspondence": "Model.Conditional.check_eval_case",
-                           "case": {"kind": "eval", "meta": mt}}, False)
-    for i in sorted(cfail)[:2]:
-        rep.violation("C20/cond-correspondence",
-                      "get_conditionals and Model.Conditional disagree on the search points / evaluation "
-                      "sequence / grid" + (": " + str(cmetas[i]["error"]) if cmetas[i]["error"] else ""),
-                      ({"case": {"kind": "cond", "meta": cmetas[i]}} if cmetas[i]["error"] else
-                       {"theorem_or_correspondence": "Model.Conditional.check_cond_case",
-                        "case": {"kind": "cond", "meta": cmetas[i]}}), bool(cmetas[i]["error"]))
-    for i, what in crbad[:2]:
-        rep.violation("C20/get_conditionals", what, {"case": {"kind": "cond", "meta": cmetas[i]}}, True)
+                    from scipy.integrate import simpson
+                    tot = float(simpson(np.array(mt["dens"]), x=np.array(g)))
+                    if abs(tot - 1) > 1e-9:
+                        why = f"returned conditional integrates to {tot!r}, not 1"
+                    else:
+                        tb = {Fraction(a): Fraction(b) for a, b in mt["table"]}
+                        vals = [float(tb[C.frac(v)]) if C.frac(v) in tb else None for v in g]
+                        if None not in vals:
+                            jm = int(np.argmax(vals))
+                            for k_, (v, dn) in enumerate(zip(vals, mt["dens"])):
+                                want = math.exp(v - vals[jm]) * mt["dens"][jm]
+                                if abs(dn - want) > 1e-8 * mt["dens"][jm]:
+                                    why = (f"density at grid point {k_} is {dn!r} but exp(func) scaled to the "
+                                           f"peak gives {want!r}")
+                                    break
+            if why:
+                rep.violation("C20/evaluate_conditional", why, {"case": {"kind": "eval", "meta": mt}}, True)
+            else:
+                rep.violation("C20/eval-correspondence",
+                              "evaluate_conditional and Model.Conditional.evaluate_search disagree (evaluation "
+                              "sequence or grid), but the property was not seen to fail on this input",
+                              {"theorem_or_correspondence": "Model.Conditional.check_eval_case",
+                               "case": {"kind": "eval", "meta": mt}}, False)
+    classify_eval(efail | ufail | gfail_e, emetas)
+    classify_eval(efail2 | ufail2 | gfail_e2, emetas2)
+
+    def classify_cond(cfail_, cufail_, crbad_, metas_):
+        for i in sorted(cfail_)[:2]:
+            rep.violation("C20/cond-correspondence",
+                          "get_conditionals and Model.Conditional disagree on the search points / evaluation "
+                          "sequence / grid" + (": " + str(metas_[i]["error"]) if metas_[i]["error"] else ""),
+                          ({"case": {"kind": "cond", "meta": metas_[i]}} if metas_[i]["error"] else
+                           {"theorem_or_correspondence": "Model.Conditional.check_cond_case",
+                            "case": {"kind": "cond", "meta": metas_[i]}}), bool(metas_[i]["error"]))
+        for i in sorted(cufail_)[:2]:
+            rep.violation("C20/get_conditionals", "a returned conditional does not integrate to one under the "
+                          "quadrature the code uses (Model.Conditional.simpson, 1e-10)",
+                          {"case": {"kind": "cond", "meta": metas_[i]}}, True)
+        for i, what in crbad_[:2]:
+            rep.violation("C20/get_conditionals", what, {"case": {"kind": "cond", "meta": metas_[i]}}, True)
+    classify_cond(cfail, cufail, crbad, cmetas)
+    classify_cond(cfail2, cufail2, crbad2, cmetas2)
     if sfail:
         rep.violation("C20/simpson-model",
                       "Model.Conditional.simpson differs from scipy.integrate.simpson on a table",
                       {"theorem_or_correspondence": "Model.Conditional.check_simpson_case",
                        "case_text": scases[sfail[0]][:1500]}, False)
     # ---- (c)
-    for meta, what in sample_part(rep, tier)[:2]:
+    for meta, what in sbad[:2] + sbad2[:2]:
         rep.violation("C20/conditional_sample", what, {"case": {"kind": "sample", "meta": meta}}, True)
+    for gid in gfail_c[:2]:
+        rep.violation("C20/sample-correspondence",
+                      f"a sample of conditional_sample is not the value of RealModel.Trapezium.pls_sample_full on "
+                      f"the recorded table, cell and uniform number (goal {gid}), but the two oracles accept it",
+                      {"theorem_or_correspondence": f"coq/gen/C20/goals_*.v verif_goal_{gid}"}, False)
 
     if pmetas:
         rep.sample({k: pmetas[0][k] for k in ("x", "p", "ks", "us", "out", "weights")})
     if emetas:
         rep.sample({k: emetas[0][k] for k in ("kind", "points", "grid_size", "grid")})
+    if pmetas2:
+        rep.sample({k: pmetas2[0][k] for k in ("x", "p", "ks", "us", "out", "weights", "scale")})
+    if emetas2:
+        rep.sample({k: emetas2[0][k] for k in ("kind", "points", "grid_size", "scale")})
     rep.assumptions = [
         "numpy.random.Generator.choice(p=w) selects cell k with probability w_k and random() is uniform "
         "(the laws of NumPy's generator are not modelled; the scripted generator records what it is given)",
@@ -636,6 +942,9 @@ def run(rep: C.Report, tier: str) -> int:
         "coverage of the region above the threshold for unimodal func is not proved (stretch item)",
         "inputs are dyadic so that the code's arithmetic on grids and tables is exact; divisions by "
         "non-dyadic sums use a 1e-12 relative tolerance inside Coq",
+        "scale clause: tables times 2^+-34..70 / 1e+-12..20, grids and coordinates in units 2^+-20..70, "
+        "log-density offsets up to +-1e6 (exact doubles) -- within the range of double precision, no "
+        "underflow / overflow of the cell masses; subnormal tables are not exercised",
     ]
     ax = (rep.coverage.get("proof_audit") or {}).get("axioms_used", [])
     return rep.finish(
@@ -647,7 +956,11 @@ def run(rep: C.Report, tier: str) -> int:
              "flat, equal pairs, tiny slopes, zero ends) with scripted cells and uniforms incl. 0 and 1-2^-16; "
              "evaluate_conditional on quadratic / tent / flat-top / two-bump dyadic log-densities, 4..17 search "
              "points, grid sizes 5..65; get_conditionals on 1..3-variable (correlated) quadratics; simpson on "
-             "tables with even and odd numbers of points; conditional_sample on Gaussians [R]")
+             "tables with even and odd numbers of points; conditional_sample on Gaussians [R] with every "
+             "piecewise_linear_sample call it makes judged by the mass / CDF oracles; ALL parts repeated on "
+             "tiny / huge values: tables x 2^+-34..70 and x 1e+-12..20, normalised pdfs on grids in units "
+             "2^+-34..70, log-densities + offset (+-46 .. +-1e6) in coordinates of units 2^+-20..66, "
+             "conditional_sample in units 1e+-6..19")
 
 
 def replay(path):
@@ -663,7 +976,18 @@ def replay(path):
         p = [Fraction(v) for v in mt["p"]]
         out, w, err, _ = run_pls(x, p, mt["ks"], [Fraction(u) for u in mt["us"]])
         print("samples:", out, "\nprobabilities used:", None if w is None else [float(v) for v in w], "\nerror:", err)
-        why = masses_oracle(x, p, w) if err is None else err
+        us = [Fraction(u) for u in mt["us"]]
+        why = (masses_oracle(x, p, w) or draws_oracle(x, p, mt["ks"], us, out)) if err is None else err
+        print("property failure:", why)
+        return 1 if why else 0
+    if case["kind"] == "sample" and "pls_call" in mt:
+        pc = mt["pls_call"]
+        x, p = [C.frac(v) for v in pc["x"]], [C.frac(v) for v in pc["p"]]
+        us = [Fraction(u) for u in pc["us"]]
+        out, w, err, _ = run_pls(x, p, pc["ks"], us)
+        print("samples:", out, "\nerror:", err)
+        why = (masses_oracle(x, p, w) or draws_oracle(x, p, pc["ks"], us, out, Fraction(1, 10 ** 12))) \
+            if err is None else err
         print("property failure:", why)
         return 1 if why else 0
     print(json.dumps(mt, indent=1)[:3000])
